@@ -78,6 +78,9 @@ class Representer:
         self.__sweeten(dumper, self.class_, cnode)
         # __sweeten() checks this, so can cast safely
         represented = cast(yaml.Node, cnode.yaml_node)
+        # if the object occurs again, it must get the sweetened node
+        if id(data) in dumper.represented_objects:
+            dumper.represented_objects[id(data)] = represented
 
         logger.debug('End representing {}'.format(data))
         return represented
@@ -211,6 +214,9 @@ class UserStringRepresenter:
                          ' check your _yatiml_sweeten() function.'
                          ).format(self.class_.__name__))
             represented = snode.yaml_node
+            # if the object occurs again, it must get the sweetened node
+            if id(data) in dumper.represented_objects:
+                dumper.represented_objects[id(data)] = represented
 
         logger.debug('End representing {}'.format(data))
         return represented
